@@ -66,6 +66,10 @@ pub fn segments() -> Vec<Vec<String>> {
         // a title glued on top of its block (no blank line on either side): title state must not leak from block to block
         s(&["Title A", "```scrut", "$ cmd", "```"]),
         s(&["# Other title", "```scrut", "$ cmd", "out", "```"]),
+        // an expectation that looks like a continuation line (fine as long as another expectation line precedes it), and an
+        // exit code line that is not the last line of its block
+        s(&["```scrut", "$ cmd", "gone", "> x", "```"]),
+        s(&["```scrut", "$ cmd", "[3]", "> x", "```"]),
         // blanks after the configuration; a configuration group of blanks
         s(&["```scrut {timeout: 3s} ", "$ cmd", "out", "```"]),
         s(&["```scrut { }", "$ cmd", "out", "```"]),
